@@ -503,8 +503,12 @@ def run(prop):
                 names = [n for n in names if n not in ('Zero', 'T3')] if prop == 'C01' else names
                 if prop != 'C09':
                     names = [n for n in names if n not in ('Payday', 'AaaMon', 'Spaced', 'Apos2', 'Upper', 'FieldK', 'LongPat', 'AaaSt')]       # rules that differ in ranking only
+            cnt = 0
             for n in range(1, maxlen + 1):
                 for combo in itertools.permutations(names, n):
+                    cnt += 1
+                    if O.tier != 'quick' and n == 4 and (cnt + O.seed) % 8:
+                        continue        # thorough tier: all lists up to length 3, and a deterministic 1-in-8 sample of the lists of length 4 (the pool has grown to 26 rules)
                     for ti in range(len(TXNS)):
                         if n == maxlen and (ti + len(combo[0])) % 2 and O.tier == 'quick':
                             continue
